@@ -93,8 +93,61 @@ def strategy(tier):
         prog.append(['pack', ['abs', max(0, packk)], draw(st.sampled_from([0, 1, 2, 3, 4, 5]))])
         prog.extend(draw(st.lists(step, max_size=4)))
         return prog
-    return st.fixed_dictionaries({'kind': st.sampled_from(KINDS),
-                                  'prog': st.one_of(free, phased())})
+    graph = st.fixed_dictionaries({'kind': st.sampled_from(KINDS),
+                                   'prog': st.one_of(free, phased())})
+    return st.integers(0, 99).flatmap(lambda r: blob_strategy(tier) if r < 12 else graph)
+
+
+def blob_strategy(tier):
+    """the packable storages that keep blob files beside the records (anchor src/ZODB/blob.py): FileStorage with a blob
+    directory, and the blob wrapper over the non-undoing MappingStorage; C13's blob world with a pack-heavy mix"""
+    from checks.c13_blobs import DATA
+    n = 14 if tier == 'quick' else 26
+    i = st.integers(0, 2)
+    d = st.integers(0, len(DATA) - 1)
+
+    def mk(k):
+        if k == 'write':
+            return st.tuples(st.just('write'), i, st.sampled_from(['w', 'w', 'a', 'r+']), d)
+        if k == 'create':
+            return st.tuples(st.just('create'), i, d)
+        if k == 'pack':
+            return st.tuples(st.just('pack'), st.integers(0, 8))
+        if k == 'undo':
+            return st.tuples(st.just('undo'), st.integers(0, 3))
+        if k == 'observe':
+            return st.tuples(st.just('observe'), st.booleans())
+        if k == 'read':
+            return st.tuples(st.just('read'), i)
+        return st.tuples(st.just(k))
+    mix = ['write', 'write', 'write', 'create', 'commit', 'commit', 'commit', 'pack', 'pack', 'pack', 'undo', 'observe', 'read']
+    return st.fixed_dictionaries({'mode': st.just('blob'), 'kind': st.sampled_from(['bmap', 'bmap', 'fs']),
+                                  'ops': st.lists(st.one_of(*[mk(k) for k in mix]).map(list), min_size=4, max_size=n)})
+
+
+def execute_blob(case):
+    from checks import c13_blobs
+    out = Outcome()
+    out.evals = 0
+    clock.install()
+    locks.install()
+    clock.reset()
+    d = newdir()
+    w = c13_blobs.BlobWorld(case['kind'], d, out, prop=PROPERTY)
+    try:
+        for op in (['create', 0, 2], ['create', 1, 3], ['commit']):
+            w.step(op)
+        for op in case['ops']:
+            w.step(op)
+            clock.CLOCK.advance(0.25)
+            out.evals += 1
+            if out.failures:
+                break
+    finally:
+        w.close()
+    out.label('blob-storage', 'blob-' + case['kind'], *['blob-' + x for x in w.labels])
+    out.nontrivial = 'pack-removed-blob-file' in w.labels
+    return out
 
 
 def refs_of(data):
@@ -398,6 +451,8 @@ class Rand:
 
 
 def execute(case):
+    if case.get('mode') == 'blob':
+        return execute_blob(case)
     import ZODB.DemoStorage
     real_random = ZODB.DemoStorage.random
     rand = ZODB.DemoStorage.random = Rand()
@@ -427,6 +482,7 @@ def _execute(case, rand):
     stop = None
     gc_used = False
     last_gc = None
+    done_stop = {True: None, False: None}      # latest pack time already packed to, per gc setting
     ntx_at_last_pack = -1
     removed_something = False
     txn_after_pack = False
@@ -528,7 +584,11 @@ def _execute(case, rand):
                         break
                 clock.CLOCK.advance(1.0)
                 if packed_ok:
-                    if (stop is not None and new_stop <= stop and base_kind == 'fs' and gc == last_gc
+                    # (a pack with garbage collection also does everything a pack without it does)
+                    # ... and no transaction since)
+                    covered = [x[0] for x in ([done_stop[True]] if gc else [done_stop[True], done_stop[False]])
+                               if x is not None and x[1] == len(A.model.txns)]
+                    if (covered and new_stop <= max(covered) and base_kind == 'fs'
                             and ntx_at_last_pack == len(A.model.txns)):
                         out.label('repack-not-later')
                         if file_hash(da) != before_bytes:
@@ -545,6 +605,8 @@ def _execute(case, rand):
                         A.max_stop = B.max_stop = stop
                     gc_used = gc_used or gc
                     last_gc = gc
+                    if done_stop[gc] is None or new_stop > done_stop[gc][0] or done_stop[gc][1] != len(A.model.txns):
+                        done_stop[gc] = (new_stop, len(A.model.txns))
                     ntx_at_last_pack = len(A.model.txns)
                     A.no_del = B.no_del = True
                 if base_kind == 'fs' and any(x in A.labels for x in ()):
